@@ -3,7 +3,7 @@ NOTES = ("Solver-based checking of the real code: the repo's Python sources are 
          "verdicts are z3 unsat/sat over all values within stated bounds; counterexamples are replayed on a real build of /repo's working tree "
          "(tools/build_overlay.sh) before any VIOLATION line is printed. Exit 3 = harness error / inconclusive (never counted as success).")
 ENGINES = [
- {'name': 'P', 'path': 'vp/pysym', 'serves_properties': ['C01', 'C02', 'C08'], 'kind_free_text': "symbolic execution of /repo/src/python/*.py on a symbolic matrix/BLAS shim; z3 decides obligations"},
+ {'name': 'P', 'path': 'vp/pysym', 'serves_properties': ['C01', 'C02', 'C03', 'C08'], 'kind_free_text': "symbolic execution of /repo/src/python/*.py on a symbolic matrix/BLAS shim; z3 decides obligations"},
 ]
 _CONELP_NOTE = ("Assumes the loop invariant at the head of an arbitrary iteration (tau>0, kappa>0, gap=<s,z>/tau^2, s,z strictly interior) - its preservation by the "
   "floating-point step is outside the claim; exact real arithmetic; cone structures in a stated box (l<=2, q dims<=2(3), s orders<=2, two s blocks), n<=2(3), p<=1; "
@@ -17,6 +17,10 @@ CHECKS = {
    technique='bounded symbolic execution of the real conelp certificate branches (z3 over reals), staged SMT obligations, replay on the real build',
    text="Same symbolic run as C01: on every path returning 'primal infeasible' / 'dual infeasible' z3 decides h'z+b'y=-1 (c'x=-1), the certificate residual bound in the documented relative norm, cone membership, None-ness of the other half and equality of the reported residual/slack with their recomputation, for all data within the bounds.",
    note=_CONELP_NOTE),
+ 'C03': dict(engine='P', category='model_checking', design_ref='DESIGN.md section 7 C03',
+   technique='bounded symbolic execution of the real coneqp exit block and no-inequality shortcut (z3 over reals), staged SMT obligations, replay on the real build',
+   text="The real coneqp source is executed symbolically from the loop head of an arbitrary iteration with an arbitrary iterate (P's strict upper triangle independent junk symbols), and through the cdim==0 shortcut with an exact KKT contract stub; on every 'optimal' path z3 decides the residual bounds in the documented norms (P symmetrised from its lower triangle only), cone membership, one of the three gap criteria and equality of every reported field with its recomputation.",
+   note=_CONELP_NOTE.replace('tau>0, kappa>0, gap=<s,z>/tau^2', 'gap=<s,z>').replace('conelp', 'coneqp') + " Shortcut: the user KKT solver is a contract stub returning any solution of the documented block system; abstol>=0 there."),
  'C08': dict(engine='P', category='translation_validation', design_ref='DESIGN.md section 7 C08',
    technique='symbolic execution of the real Python kernels on z3 reals; SMT equivalence with a written-down definition per configuration',
    text="Every Python fallback kernel of misc.py is executed symbolically (all vector/matrix data z3 reals) for each cone structure in a stated box and each flag/offset combination; z3 proves result == definition cell by cell plus the frame condition (unsat of the negation), so within the box the claim holds for all real data, not for sampled data.",
